@@ -50,6 +50,32 @@ def t_accept():
 			raise ValueError('%s is no longer an _AcceptElement' % name)
 		rows.append('(%s, %s)' % (hexlit(name.encode()), 'true' if cls(u'*').value == u'*/*' else 'false'))
 	out.append(defn('ACCEPT_FIELDS', 'list (bytes * bool)', coq_list(rows)))
+	# ---- variant probes (D25, both parts) ----
+	from httoop.exceptions import InvalidHeader
+
+	def probe(text):
+		try:
+			e = _AcceptElement.parse(text)
+			return ([(k, v) for k, v in e.params.items()], e.quality)
+		except InvalidHeader:
+			return 'invalid'
+	# D25 (empty q): an empty quality value gives the quality None (AsFound) or is refused like any other text float() refuses (Repaired)
+	r = [probe(b'a/b;q='), probe(b'a/b;Q='), probe(b'a/b;q')]
+	if r == [([(b'q', b'')], None), ([(b'q', u'')], None), ([(b'q', u'')], None)]:
+		out.append(defn('EMPTY_Q_VARIANT', 'variant', 'AsFound'))
+	elif r == ['invalid'] * 3:
+		out.append(defn('EMPTY_Q_VARIANT', 'variant', 'Repaired'))
+	else:
+		raise ValueError('_AcceptElement.parse of an empty quality value = %r: neither behaviour the model knows' % (r,))
+	# D25 (accept-ext): parameters after the quality value are part of the text given to float() (AsFound: always refused) or
+	# are appended to the parameters after q, a name given twice being refused (Repaired)
+	r = [probe(b'a/b;x=1;q=0.5;ext=1;y="2";z'), probe(b'a/b;x=1;q=0.5;x=2'), probe(b'a/b;q=0.5;q=1'), probe(b'a/b;Q=1;q=0.5;e=1'), probe(b'a/b;q=0.5;Q=1')]
+	if r == ['invalid'] * 5:
+		out.append(defn('ACCEPT_EXT_VARIANT', 'variant', 'AsFound'))
+	elif r == [([(b'x', u'1'), (b'q', b'0.5'), (b'ext', u'1'), (b'y', u'2'), (b'z', u'')], 0.5), 'invalid', 'invalid', ([(b'q', b'0.5'), (b'e', u'1')], 0.5), 'invalid']:
+		out.append(defn('ACCEPT_EXT_VARIANT', 'variant', 'Repaired'))
+	else:
+		raise ValueError('_AcceptElement.parse of accept-ext parameters = %r: neither behaviour the model knows' % (r,))
 	return ''.join(out)
 
 
